@@ -206,6 +206,7 @@ Proof.
         discriminate E end.
   - pose proof (Sim_expr_all toks w w 0 f) as (Svar & Spri & Sfac & Sml & Smul & Sal & Sadd & Scmp).
     pose proof (MonoE_expr_all toks f) as (Mvar & Mpri & Mfac & Mml & Mmul & Mal & Madd & Mcmp).
+    pose proof (Fwd_expr_all toks sync_none sync_none_ok f) as (Fvar & Fpri & Ffac & Fml & Fmul & Fal & Fadd & Fcmp).
     pose proof (Sim_ident toks w w 0) as Sid. pose proof (Sim_intlit toks w w 0) as Sil.
     repeat split.
     + (* variable *)
@@ -273,7 +274,7 @@ Proof.
                           | IErr _ _ => IOk s lhs | IPanic => IPanic | IFuel => IFuel end)).
       apply (QS_tag_loop GoodN); [exact SG|]. intros t.
       apply (QS_bindk GoodN CE CE); [exact SG | | exact Mml | apply QS_rhs; [exact Mfac | exact IHfac] | exact IHml | apply mul_loop_sub].
-      split; [apply Fwd_rhs; [exact sync_none_ok | fwd_solve sync_none_ok] | apply MonoE_rhs, Mfac].
+      split; [apply Fwd_rhs; fwd_solve sync_none_ok | apply MonoE_rhs, Mfac].
     + (* mul *)
       change (QSg GoodN CE (fun s => bind (p_factor f s) (fun s1 e => mul_loop f s1 e))
                            (fun s => ibind (i_factor f s) (fun s1 e => i_mul_loop f s1 e))).
@@ -289,7 +290,7 @@ Proof.
                           | IErr _ _ => IOk s lhs | IPanic => IPanic | IFuel => IFuel end)).
       apply (QS_tag_loop GoodN); [exact SG|]. intros t.
       apply (QS_bindk GoodN CE CE); [exact SG | | exact Mal | apply QS_rhs; [exact Mmul | exact IHmul] | exact IHal | apply add_loop_sub].
-      split; [apply Fwd_rhs; [exact sync_none_ok | fwd_solve sync_none_ok] | apply MonoE_rhs, Mmul].
+      split; [apply Fwd_rhs; fwd_solve sync_none_ok | apply MonoE_rhs, Mmul].
     + (* add *)
       change (QSg GoodN CE (fun s => bind (p_mul f s) (fun s1 e => add_loop f s1 e))
                            (fun s => ibind (i_mul f s) (fun s1 e => i_add_loop f s1 e))).
